@@ -67,6 +67,21 @@ def check(case):
         except PropertyViolation as v:
             raise PropertyViolation("after-second-inplace-update:" + v.bucket, "after a second in-place parameter update (back to the first values): " + v.message, v.detail)
     sparse_history(case)
+    gen.reinit_and_set(state, case)
+    try:
+        check_round(case, state)
+    except PropertyViolation as v:
+        raise PropertyViolation("after-reinitialise:" + v.bucket, "after reinitialize_parameters() and writing the parameters again: " + v.message, v.detail)
+    # shared object: this state's phase network is handed to ANOTHER mixed state as its (amplitude) module and that state is evaluated;
+    # the first state must be unaffected
+    from qucumber.nn_states import DensityMatrix
+    other = DensityMatrix(case["n"], gpu=False, module=state.rbm_ph)
+    sp_ = other.generate_hilbert_space()
+    other.rho(sp_, sp_); other.probability(sp_); other.rho(sp_[:1], sp_[:1], expand=False)
+    try:
+        check_round(case, state)
+    except PropertyViolation as v:
+        raise PropertyViolation("after-module-shared:" + v.bucket, "after this state's phase network was also used as the module of another mixed state: " + v.message, v.detail)
     return r
 
 
